@@ -270,12 +270,17 @@ structure BddMachine (R : Type) [CommRing R] (S : Size R) (C G : Type) where
   good : G → Prop
   Bc : ℤ
   hBc : 0 ≤ Bc
-  cmux_spec : ∀ g t f, good g → S.ν (ph (cmux g t f) - (bitR (bit g) * (ph t - ph f) + ph f)) ≤ Bc
+  /-- the invariant of the ciphertexts of the evaluation (shape, digit bound): preserved by `cmux`, holds for the initial slots -/
+  wfC : C → Prop
+  cmux_spec : ∀ g t f, good g → wfC t → wfC f →
+    wfC (cmux g t f) ∧ S.ν (ph (cmux g t f) - (bitR (bit g) * (ph t - ph f) + ph f)) ≤ Bc
   enc : Bool → R
   one : C
   zero : C
   one_spec : ph one = enc true
   zero_spec : ph zero = enc false
+  one_wf : wfC one
+  zero_wf : wfC zero
 
 namespace BddMachine
 variable {S : Size R} {C G : Type} (m : BddMachine R S C G)
@@ -300,7 +305,7 @@ def initStateC (w : Nat) : List (Option C) := (List.range w).map fun j => some (
 
 /-- the Boolean state and the ciphertext state agree up to an error `≤ k` in every defined slot -/
 def Rel (k : ℤ) (sb : List (Option Bool)) (sc : List (Option C)) : Prop :=
-  sb.length = sc.length ∧ ∀ (j : Nat) (v : Bool), sb[j]? = some (some v) → ∃ c, sc[j]? = some (some c) ∧ S.ν (m.ph c - m.enc v) ≤ k
+  sb.length = sc.length ∧ ∀ (j : Nat) (v : Bool), sb[j]? = some (some v) → ∃ c, sc[j]? = some (some c) ∧ m.wfC c ∧ S.ν (m.ph c - m.enc v) ≤ k
 
 theorem rel_init (w : Nat) : m.Rel 0 (initState w) (m.initStateC w) := by
   refine ⟨by simp [initState, initStateC], ?_⟩
@@ -311,7 +316,11 @@ theorem rel_init (w : Nat) : m.Rel 0 (initState w) (m.initStateC w) := by
   | some x =>
     rw [hj] at h
     simp only [Option.map_some, Option.some.injEq] at h
-    refine ⟨if x == 1 then m.one else m.zero, by simp [initStateC, hj], ?_⟩
+    refine ⟨if x == 1 then m.one else m.zero, by simp [initStateC, hj], ?_, ?_⟩
+    · by_cases hx : x = 1
+      · simp [hx, m.one_wf]
+      · have : (x == 1) = false := by simpa using hx
+        simp [this, m.zero_wf]
     subst h
     by_cases hx : x = 1
     · simp [hx, m.one_spec, S.zero]
@@ -347,8 +356,8 @@ theorem rel_step (nIn : Nat) (inpB : Nat → Bool) (inpG : Nat → G)
         rw [hp] at hv
         simp only at hv
         subst hv
-        obtain ⟨c, hc, hb⟩ := h.2 j v hp
-        refine ⟨c, by simp [stepNodeC, hc], ?_⟩
+        obtain ⟨c, hc, hwc, hb⟩ := h.2 j v hp
+        refine ⟨c, by simp [stepNodeC, hc], hwc, ?_⟩
         linarith [m.hBc]
     | cmux b hi lo =>
       simp only [stepNode] at hv
@@ -366,11 +375,11 @@ theorem rel_step (nIn : Nat) (inpB : Nat → Bool) (inpG : Nat → G)
             | some vl =>
               rw [hh, hl] at hv
               simp only [Option.some.injEq] at hv
-              obtain ⟨ch, hch, hbh⟩ := h.2 hi vh hh
-              obtain ⟨cl, hcl, hbl⟩ := h.2 lo vl hl
-              refine ⟨m.cmux (inpG b) ch cl, by simp [stepNodeC, hch, hcl], ?_⟩
+              obtain ⟨ch, hch, hwh, hbh⟩ := h.2 hi vh hh
+              obtain ⟨cl, hcl, hwl, hbl⟩ := h.2 lo vl hl
               have hbn : b < nIn := hlv b hi lo (List.mem_of_getElem? hnd)
-              have hspec := m.cmux_spec (inpG b) ch cl (hin b hbn).1
+              obtain ⟨hwres, hspec⟩ := m.cmux_spec (inpG b) ch cl (hin b hbn).1 hwh hwl
+              refine ⟨m.cmux (inpG b) ch cl, by simp [stepNodeC, hch, hcl], hwres, ?_⟩
               rw [(hin b hbn).2] at hspec
               subst hv
               -- exact selection on the encodings, errors carried by the selected operand
@@ -449,7 +458,7 @@ theorem bdd_eval_noise (nIn w : Nat) (nodes : List Node) (inpB : Nat → Bool) (
         rw [h0] at h
         simp only at h
         subst h
-        obtain ⟨c, hc, hb⟩ := hrel.2 0 v h0
+        obtain ⟨c, hc, _, hb⟩ := hrel.2 0 v h0
         exact ⟨c, by rw [hc], hb⟩
     · rw [if_neg hwf] at h; cases h
 
